@@ -647,6 +647,80 @@ def check_batchnorm(res, facts):
         (rule.bad if problems else rule.ok)(key, "; ".join(problems) if problems else "z_i collected in order, batch-inverted, zipped with the points; finite point -> (X w^%d, Y w^%d), identity kept" % (ex, ey), f.loc)
 
 
+def check_afflift(res, facts):
+    """short-Weierstrass affine points carry an `infinity` flag beside (x, y); a projective point built from the raw
+    coordinate fields of an affine value must sit on an arm that has looked at that flag (is_zero / xy() / the field
+    itself) -- otherwise the identity is lifted to the finite pseudo-point (0 : 0 : 1), which is not on the curve"""
+    from rules.c07 import E, show
+    rule = res.rule("R-AFFLIFT", "SW: projective points are built from an affine value's raw coordinates only under a test of its infinity flag", 2)
+    AFF = "ark_ec::models::short_weierstrass::affine::Affine"
+    PROJ = "ark_ec::models::short_weierstrass::group::Projective"
+    n_sites = 0
+    witness = {}
+    cands = [f for f in facts.fns(unit="ws", crate="ark_ec") if "short_weierstrass" in f.id and "::tests::" not in f.id]
+    cands += [f for f in facts.fns(unit="shapes") if f.name in ("affine_lifter", "affine_lifter_checked")]
+    for f in cands:
+        sites = []
+        for bb, t in f.calls():
+            if t["f"].get("name") == "new_unchecked" and len(t["args"]) == 3 and PROJ in (t["f"].get("self") or t["f"].get("path") or ""):
+                sites.append((bb, t["args"]))
+        for bi, si, st_ in f.stmts():
+            r = st_.get("r")
+            if r and r.get("k") == "agg" and r.get("adt") == PROJ and len(r.get("ops", [])) == 3:
+                sites.append((bi, r["ops"]))
+        for bb, ops in sites:
+            # raw coordinate fields of an affine value?
+            bases = []
+            for o, fld in zip(ops[:2], ("x", "y")):
+                l = op_local(o)
+                for _ in range(6):
+                    if l is None:
+                        break
+                    ds = f.defs().get(l, [])
+                    if len(ds) != 1 or ds[0][2] != "assign" or ds[0][3]["r"]["k"] not in ("use", "cast"):
+                        break
+                    src = ds[0][3]["r"]["o"]
+                    if "k" in src:
+                        break
+                    from arklib.facts import op_place, place_parts
+                    bl, projs = place_parts(op_place(src))
+                    flds = [p_[2] for p_ in projs if isinstance(p_, (list, tuple)) and p_[0] == "f"]
+                    if flds and flds[-1] == fld and AFF in f.local_ty(bl):
+                        bases.append(bl)
+                        break
+                    if projs:
+                        break
+                    l = bl
+            if len(bases) != 2 or bases[0] != bases[1]:
+                continue
+            n_sites += 1
+            base = bases[0]
+            key = "ark_ec|%s|lift of _%d" % (f.id[-90:], base)
+            cd = DF.control_deps(f)
+            seen, stack, guarded = set(), [bb], False
+            while stack and not guarded:
+                x = stack.pop()
+                for (sw, succ_) in cd.get(x, ()):
+                    if sw in seen:
+                        continue
+                    seen.add(sw)
+                    stack.append(sw)
+                    txt = show(E(f, f.bbs[sw]["t"]["o"]))
+                    if "infinity" in txt or "is_zero(" in txt or "xy(" in txt or "is_identity(" in txt:
+                        guarded = True
+            if f.unit == "shapes":
+                witness[f.name] = guarded
+                n_sites -= 1
+                continue
+            (rule.ok if guarded else rule.bad)(key, "under a test of the infinity flag" if guarded else "a projective point is built as (a.x, a.y, z) from the raw coordinates of an affine value without looking at its infinity flag: the affine identity becomes a finite point that is not on the curve (and every sum / product computed from it is wrong)", f.loc)
+    if witness.get("affine_lifter") is False and witness.get("affine_lifter_checked") is True:
+        rule.ok("witness|affine_lifter", "positive example matched and its guarded twin accepted (the rule still sees raw lifts)")
+    else:
+        rule.bad("witness|affine_lifter", "the positive example in /verif/witness/shapes was not matched (or its guarded twin was): rule has gone blind (%s)" % witness)
+    if n_sites == 0:
+        rule.ok("ark_ec|short_weierstrass|no raw lift", "no projective point is built from the raw coordinate fields of an affine value (conversions go through xy() / From<Affine>)", "")
+
+
 def _reach_bb(fn, a, b):
     succ = fn.succ()
     seen, st = {a}, [a]
@@ -662,7 +736,7 @@ def _reach_bb(fn, a, b):
 
 
 def run(ctx, res):
-    facts = ctx.facts(["ws"])
+    facts = ctx.facts(["ws", "shapes"])
     res.analysed = facts.stats()
     check_sw(res, facts)
     check_te(res, facts)
@@ -670,6 +744,7 @@ def run(ctx, res):
     check_dispatch(res, facts)
     check_convert(res, facts)
     check_batchnorm(res, facts)
+    check_afflift(res, facts)
     return {
         "level": "proof",
         "explanation": "Each obligation is an identity of rational functions over Z in the coordinates of the operands (and the curve coefficients as symbols): the MIR of the formula block is evaluated symbolically on every general-position path (configuration arms a = 0 / a != 0 and base-field degree split) and compared with the textbook affine group law through the coordinate maps (X/Z^2, Y/Z^3) resp. (X/Z, Y/Z) with T = XY/Z; plus structural rules for exceptional-case dispatch, representation-independent equality, on-curve tests and operators defined through other operators. Batch normalisation: order / pairing of the inverted z coordinates and the per-point maps (R-BATCHNORM). Completeness of the unified Edwards law on the prime-order subgroup is NOT decided.",
